@@ -46,6 +46,8 @@ type clusterCache struct {
 	hbone                   bool
 	proxyView               model.ProxyView
 	metadataCerts           *metadataCerts // metadata certificates of proxy
+	credentialSocket        bool           // proxy announced the credential SDS socket: external credentials are fetched from it
+	fileCredentialSocket    bool           // proxy announced the file credential SDS socket: file certificates are fetched from it
 	endpointBuilder         *endpoints.EndpointBuilder
 
 	// service attributes
@@ -96,6 +98,10 @@ func (t *clusterCache) Key() any {
 	if t.metadataCerts != nil {
 		h.WriteString(t.metadataCerts.String())
 	}
+	h.Write(Separator)
+	h.WriteString(strconv.FormatBool(t.credentialSocket))
+	h.Write(Separator)
+	h.WriteString(strconv.FormatBool(t.fileCredentialSocket))
 	h.Write(Separator)
 
 	if t.service != nil {
@@ -207,6 +213,8 @@ func buildClusterKey(service *model.Service, port *model.Port, cb *ClusterBuilde
 		destinationRule:         dr,
 		envoyFilterKeys:         efKeys,
 		metadataCerts:           cb.metadataCerts,
+		credentialSocket:        cb.credentialSocketExist,
+		fileCredentialSocket:    cb.fileCredentialSocketExist,
 		peerAuthVersion:         cb.sidecarScope.AuthnPolicies.GetVersion(),
 		serviceAccounts:         cb.req.Push.ServiceAccounts(service.Hostname, service.Attributes.Namespace),
 		endpointBuilder:         eb,
